@@ -407,7 +407,19 @@ theorem shrinkToSize_sat (cfg : Cfg) (c : Nat) (w : World α)
           rw [this] at hlen
           exact List.eq_nil_of_length_eq_zero (by simpa using hlen)
       have hframe4 : Frame1 w w4 c := by
-        refine ⟨?_, by rw [hhc4], by rw [hhc4], ?_, ?_, ?_, Or.inr (Or.inl (by rw [hhc4]))⟩
+        have hnext4 : w4.next = w.next := by subst hw4; subst hw3; exact hc12.next
+        refine ⟨?_, by rw [hhc4], by rw [hhc4], ?_, ?_, ?_, Or.inr (Or.inl (by rw [hhc4])), ?_⟩
+        rotate_right
+        · -- live-block accounting: exactly the old heap buffer was released
+          refine ⟨fun b _ => ?_, fun b hb => ?_⟩
+          · rw [hlive4, hl.nodup.mem_erase_iff, hhc4]; simp only []
+            constructor
+            · rintro ⟨h1, h2⟩; exact ⟨h2, fun h3 => absurd h3 h1⟩
+            · rintro ⟨h1, h2⟩; exact ⟨fun h3 => hne ((h2 h3).symm ▸ h3 ▸ rfl), h1⟩
+          · rw [hlive4, hhc4]; simp only []
+            constructor
+            · intro h; have := (hl.live_ok b (List.mem_of_mem_erase h)).2.2; omega
+            · intro h; have := hl.next_ok; omega
         · intro d hd; subst hw4; show upd w3.hdr c _ d = _; rw [upd_other _ _ _ _ hd, hh3]
         · intro b h1 h2 _ _
           rw [hmem4 b h1]
